@@ -8,6 +8,7 @@ import ast
 from tiv.astutil import body_walk, call_name, dotted, enclosing_stmt, flatten_boolop, guards, kw, norm, rename, short, stores_in, walk_local
 from tiv.match import find_stmts, match_expr, match_stmt
 from tiv.mutate import M
+from tiv.sem import trace, same_bool
 
 RULES = {
     "R1": "positivity clamp: every return of BaseImage._valid_size is a 2-tuple whose elements are `E or 1` (or a caller-given dimension "
@@ -23,6 +24,40 @@ RULES = {
           "branches are mirror images under width<->height (with * and / of the pixel ratio exchanged)",
 }
 CM, BL, UW = "image/common.py", "image/block.py", "widget/_urwid.py"
+
+
+def _unify(a, b, mp) -> bool:
+    """Structural equality of a and b up to a renaming of b's names (recorded in mp: name in b -> name in a) and the exchange
+    `* self._pixel_ratio` <-> `/ self._pixel_ratio`."""
+    if isinstance(a, ast.Name) and isinstance(b, ast.Name):
+        if b.id in mp:
+            return mp[b.id] == a.id
+        mp[b.id] = a.id
+        return True
+    if type(a) is not type(b):
+        return False
+    if isinstance(a, (ast.BinOp, ast.AugAssign)):
+        ra, rb = (a.right, b.right) if isinstance(a, ast.BinOp) else (a.value, b.value)
+        ratio = norm(ra) == "self._pixel_ratio" == norm(rb)
+        ops_ok = type(a.op) is type(b.op) if not ratio else {type(a.op), type(b.op)} == {ast.Mult, ast.Div}
+        if not ops_ok:
+            return False
+        if isinstance(a, ast.BinOp):
+            return _unify(a.left, b.left, mp) and _unify(a.right, b.right, mp)
+        return _unify(a.target, b.target, mp) and _unify(a.value, b.value, mp)
+    for f in a._fields:
+        if f in ("ctx", "type_comment", "kind"):
+            continue
+        x, y = getattr(a, f, None), getattr(b, f, None)
+        if isinstance(x, list):
+            if not isinstance(y, list) or len(x) != len(y) or not all(_unify(p, q, mp) if isinstance(p, ast.AST) else p == q for p, q in zip(x, y)):
+                return False
+        elif isinstance(x, ast.AST):
+            if not isinstance(y, ast.AST) or not _unify(x, y, mp):
+                return False
+        elif x != y:
+            return False
+    return True
 
 
 def run(ck, m):
@@ -44,13 +79,14 @@ def run(ck, m):
         for meth, par, axis in (("_pixels_cols", "cols", 0), ("_pixels_lines", "lines", 1)):
             fn = m.get(rel, f"{cname}.{meth}")
             r = next((s for s in fn.body if isinstance(s, ast.Return)), None)
-            ck.need(r is not None and isinstance(r.value, ast.IfExp) and norm(r.value.test) == "pixels is not None", f"{cname}.{meth}: `X if pixels is not None else Y` not recognised")
-            body, other = r.value.body, r.value.orelse
+            rv = trace(fn, r.value) if r is not None else None
+            ck.need(rv is not None and isinstance(rv, ast.IfExp) and norm(rv.test) in ("pixels is not None", "pixels is None"), f"{cname}.{meth}: `X if pixels is not None else Y` not recognised")
+            body, other = (rv.body, rv.orelse) if norm(rv.test) == "pixels is not None" else (rv.orelse, rv.body)
             # multiplier
             if isinstance(other, ast.Name) and other.id == par:
                 mul_u = "1"
             else:
-                mm = match_expr(f"{par} * $u", other)
+                mm = match_expr(f"{par} * $u", other) or match_expr(f"$u * {par}", other)
                 mul_u = norm(mm["u"]) if mm else None
             # divisor
             div_u = None
@@ -61,21 +97,33 @@ def run(ck, m):
                     mm = match_expr(pat, body)
                     if mm:
                         div_u = norm(mm["u"])
-            ck.ob("R2", r, mul_u is not None and div_u is not None and mul_u == div_u,
+            ck.expect(mul_u is not None and div_u is not None, f"{cname}.{meth}: conversion forms not recognised (`{norm(body)[:50]}` / `{norm(other)[:50]}`)")
+            if mul_u is None or div_u is None:
+                continue
+            ck.ob("R2", r, mul_u == div_u,
                   f"{cname}.{meth}: pixels are divided by `{div_u}` but {par} are multiplied by `{mul_u}`: the two directions of the conversion must use the same unit", stmt=f"{cname}.{meth}: inverse pair")
             units[(cname, meth)] = mul_u
-            if cname == "GraphicsImage" and mul_u:
+            if cname == "GraphicsImage":
                 ck.ob("R2", r, mul_u == f"(get_cell_size() or (1, 2))[{axis}]", f"{cname}.{meth} must use axis {axis} of the cell size (fallback (1, 2)); found `{mul_u}`", stmt=f"{cname}.{meth}: axis {axis} of the cell size")
         grs = m.get(rel, f"{cname}._get_render_size")
         r = next((s for s in grs.body if isinstance(s, ast.Return)), None)
-        mm = match_expr("tuple(map(mul, self.rendered_size, $p))", r.value) if r else None
-        ck.need(mm is not None, f"{cname}._get_render_size: `tuple(map(mul, self.rendered_size, <pair>))` not recognised")
-        pair = norm(mm["p"])
-        if cname == "BlockImage":
-            ok = pair == f"({units[(cname, '_pixels_cols')]}, {units[(cname, '_pixels_lines')]})"
-        else:
-            ok = pair == "get_cell_size() or (1, 2)"
-        ck.ob("R2", r, ok, f"{cname}._get_render_size multiplies by `{pair}`, which is not the unit pair of its _pixels_cols/_pixels_lines ({units[(cname, '_pixels_cols')]}, {units[(cname, '_pixels_lines')]})",
+        rv = trace(grs, r.value) if r is not None else None
+        pair = None
+        if rv is not None:
+            mm = match_expr("tuple(map(mul, self.rendered_size, $p))", rv)
+            if mm is not None:
+                p_ = mm["p"]
+                pair = [norm(e) for e in p_.elts] if isinstance(p_, ast.Tuple) and len(p_.elts) == 2 else [f"({norm(p_)})[0]", f"({norm(p_)})[1]"]
+            elif isinstance(rv, ast.Tuple) and len(rv.elts) == 2:
+                m0 = match_expr("self.rendered_size[0] * $u", rv.elts[0]) or match_expr("$u * self.rendered_size[0]", rv.elts[0]) or match_expr("self.rendered_width * $u", rv.elts[0])
+                m1 = match_expr("self.rendered_size[1] * $u", rv.elts[1]) or match_expr("$u * self.rendered_size[1]", rv.elts[1]) or match_expr("self.rendered_height * $u", rv.elts[1])
+                if m0 is not None and m1 is not None:
+                    pair = [norm(m0["u"]), norm(m1["u"])]
+        ck.expect(pair is not None, f"{cname}._get_render_size: neither `tuple(map(mul, self.rendered_size, <pair>))` nor `(cols * u0, lines * u1)`")
+        if pair is None or (cname, "_pixels_cols") not in units or (cname, "_pixels_lines") not in units:
+            continue
+        want_pair = [units[(cname, "_pixels_cols")], units[(cname, "_pixels_lines")]]
+        ck.ob("R2", r, pair == want_pair, f"{cname}._get_render_size multiplies by `{pair}`, which is not the unit pair of its _pixels_cols/_pixels_lines {want_pair}",
               stmt=f"{cname}._get_render_size: same units as the conversions")
 
     # ---- R3 ----------------------------------------------------------------------------
@@ -108,7 +156,7 @@ def run(ck, m):
     rn = m.get(CM, "BaseImage._renderer")
     rt = next((s for s in rn.body if isinstance(s, ast.Try) and s.finalbody), None)
     sv = [s for s in rn.body if isinstance(s, ast.Assign) and norm(s.value) == "self._size" and rt is not None and s.lineno < rt.lineno]
-    ok = bool(sv) and any(isinstance(s, ast.If) and "isinstance" in norm(s.test) and any(norm(x) in (f"self.size = {norm(sv[0].targets[0])}", f"self._size = {norm(sv[0].targets[0])}") for x in s.body) for s in rt.finalbody)
+    ok = bool(sv) and any(isinstance(s, ast.If) and same_bool(rn, s.test, f"isinstance({norm(sv[0].targets[0])}, Size)") and any(norm(x) in (f"self.size = {norm(sv[0].targets[0])}", f"self._size = {norm(sv[0].targets[0])}") for x in s.body) for s in rt.finalbody)
     ck.ob("R3", rn, ok, "_renderer must restore a dynamic size in finally (rendering never turns a dynamic size into a fixed one)", stmt="_renderer: dynamic size restored")
     reach = [fn for rel, q, fn in m.functions() if fn.name in ("_valid_size", "_render_image", "_get_render_data", "_get_render_size", "_pixels_cols", "_pixels_lines", "_width_height_px", "_get_minimal_render_size")]
     bad = [f"{fn.name}: {short(st, 40)}" for fn in reach for t, st in stores_in(ast.Module(body=fn.body, type_ignores=[])) if isinstance(t, ast.Attribute) and t.attr in ("_size", "size")]
@@ -124,26 +172,33 @@ def run(ck, m):
     auto = next((s for s in body_walk(vs) if isinstance(s, ast.If) and norm(s.test) == "Size.AUTO in (width, height)"), None)
     ori = next((s for s in body_walk(vs) if isinstance(s, ast.If) and norm(s.test) == "Size.ORIGINAL in (width, height)"), None)
     ck.need(auto is not None and ori is not None, "_valid_size: AUTO / ORIGINAL branches not found")
-    oret = ori.body[0]
-    ow = match_expr("self._pixels_cols(pixels=$w) or 1", oret.value.elts[0])
-    oh = match_expr("self._pixels_lines(pixels=$h) or 1", oret.value.elts[1])
-    ck.need(ow is not None and oh is not None, "_valid_size: ORIGINAL return not recognised")
+    KEEP = ("frame_width", "frame_height")
+    oret = next((x for x in walk_local(ori) if isinstance(x, ast.Return) and isinstance(x.value, ast.Tuple) and len(x.value.elts) == 2), None)
+    ck.expect(oret is not None, "_valid_size: ORIGINAL return not recognised")
+    if oret is None:
+        return
+    ow = match_expr("self._pixels_cols(pixels=$w) or 1", trace(vs, oret.value.elts[0], keep=KEEP))
+    oh = match_expr("self._pixels_lines(pixels=$h) or 1", trace(vs, oret.value.elts[1], keep=KEEP))
+    ck.expect(ow is not None and oh is not None, "_valid_size: ORIGINAL return not recognised")
     cond = next((n.test for n in walk_local(auto) if isinstance(n, ast.IfExp)), None)
-    ck.need(cond is not None, "_valid_size: AUTO decision not recognised")
-    dis = {norm(v) for v in flatten_boolop(cond, ast.Or)}
+    ck.expect(cond is not None, "_valid_size: AUTO decision not recognised")
+    if cond is None or ow is None or oh is None:
+        return
+    dis = {norm(trace(vs, v, keep=KEEP)) for v in flatten_boolop(cond, ast.Or)}
     want = {f"{norm(ow['w'])} > frame_width", f"{norm(oh['h'])} > frame_height"}
     ck.ob("R5", auto, dis == want, f"AUTO must fall back to FIT exactly when the size ORIGINAL would produce exceeds the frame: expected {sorted(want)}; found {sorted(dis)}", stmt="_valid_size: AUTO test == ORIGINAL's pixel size vs frame")
     ie = next((n for n in walk_local(auto) if isinstance(n, ast.IfExp)), None)
     ck.ob("R5", auto, ie is not None and norm(ie.body) == "Size.FIT" and norm(ie.orelse) == "Size.ORIGINAL", "AUTO: FIT when it does not fit, else ORIGINAL", stmt="_valid_size: AUTO -> FIT / ORIGINAL")
-    fit = next((s for s in body_walk(vs) if isinstance(s, ast.If) and norm(s.test) == "height_ratio > width_ratio"), None)
+    fit = next((s for s in body_walk(vs) if isinstance(s, ast.If) and s.orelse and len(s.body) >= 3 and len(s.body) == len(s.orelse) and "_pixel_ratio" in norm(s.body[0]) and "_pixel_ratio" in norm(s.orelse[0])), None)
     ck.need(fit is not None and fit.orelse, "_valid_size: FIT branches not found")
-    SW = {"_height_px": "_width_px", "_width_px": "_height_px", "height_px": "width_px", "width_px": "height_px", "frame_height": "frame_width", "frame_width": "frame_height"}
-    a = [norm(s) for s in fit.body]
-    b = [norm(rename(s, SW)).replace("/ self._pixel_ratio", "* self._pixel_ratio").replace("/= self._pixel_ratio", "*= self._pixel_ratio") for s in fit.orelse]
-    ck.ob("R5", fit, a == b, "the two FIT branches (width- vs height-constrained) are not mirror images under width<->height: "
-          + "; ".join(f"`{x}` vs `{y}`" for x, y in zip(a, b) if x != y), stmt="_valid_size: FIT branches mirror each other")
-    ck.ob("R5", fit, any("min(_height_px, frame_height)" in x for x in a), "the adjusted dimension must be clamped to its own frame dimension", stmt="_valid_size: clamp to the matching frame dimension")
-    fr = find_stmts("width_ratio = frame_width / ori_width", body_walk(vs)) and find_stmts("height_ratio = frame_height / ori_height", body_walk(vs))
+    mp = {}
+    mirror = len(fit.body) == len(fit.orelse) and all(_unify(x, y, mp) for x, y in zip(fit.body, fit.orelse))
+    inv = all(mp.get(v, k) == k for k, v in mp.items())        # the renaming is an involution (width <-> height)
+    ck.ob("R5", fit, mirror and inv and mp.get("frame_width") == "frame_height",
+          "the two FIT branches (width- vs height-constrained) are not mirror images under width<->height (same statements with the roles of the axes exchanged and the pixel ratio inverted)"
+          + (f"; renaming found: {mp}" if mirror else ""), stmt="_valid_size: FIT branches mirror each other")
+    ck.ob("R5", fit, any(match_expr("min($v, frame_height)", n) is not None for s_ in fit.body for n in ast.walk(s_)), "the adjusted dimension must be clamped to its own frame dimension", stmt="_valid_size: clamp to the matching frame dimension")
+    fr = same_bool(vs, fit.test, "frame_height / self._original_size[1] > frame_width / self._original_size[0]")
     ck.ob("R5", vs, bool(fr), "the constraining axis is decided from frame/original ratios per axis", stmt="_valid_size: ratios per axis")
 
 
